@@ -161,32 +161,28 @@ def parseExtended (h : Params) (ext : Bytes) : Out Instr :=
       pure (.setDiscriminator d)
     else .ok (.unknownExtended sub ext)
 
+/-- `result.map(|v| Instruction(v))` on a reader result: the value of a successful read becomes
+the instruction's operand, the rest of the input is passed on -/
+def mapRead {α β : Type} (g : α → β) : Out (α × Bytes) → Out (β × Bytes)
+  | .ok (v, rest) => .ok (g v, rest)
+  | .err e => .err e
+  | .panic w => .panic w
+  | .diverge => .diverge
+
 /-- the standard-opcode arm (`0 < opcode < opcode_base`) -/
 def parseStandard (h : Params) (opcode : Nat) (input : Bytes) : Out (Instr × Bytes) :=
   if opcode = 1 then .ok (.copy, input)
-  else if opcode = 2 then do
-    let (v, input) ← Leb.unsigned input
-    pure (.advancePc v, input)
-  else if opcode = 3 then do
-    let (v, input) ← Leb.signed input
-    pure (.advanceLine v, input)
-  else if opcode = 4 then do
-    let (v, input) ← Leb.unsigned input
-    pure (.setFile v, input)
-  else if opcode = 5 then do
-    let (v, input) ← Leb.unsigned input
-    pure (.setColumn v, input)
+  else if opcode = 2 then mapRead .advancePc (Leb.unsigned input)
+  else if opcode = 3 then mapRead .advanceLine (Leb.signed input)
+  else if opcode = 4 then mapRead .setFile (Leb.unsigned input)
+  else if opcode = 5 then mapRead .setColumn (Leb.unsigned input)
   else if opcode = 6 then .ok (.negateStatement, input)
   else if opcode = 7 then .ok (.setBasicBlock, input)
   else if opcode = 8 then .ok (.constAddPc, input)
-  else if opcode = 9 then do
-    let (v, input) ← Ints.readFixed h.endian 2 input
-    pure (.fixedAddPc v, input)
+  else if opcode = 9 then mapRead .fixedAddPc (Ints.readFixed h.endian 2 input)
   else if opcode = 10 then .ok (.setPrologueEnd, input)
   else if opcode = 11 then .ok (.setEpilogueBegin, input)
-  else if opcode = 12 then do
-    let (v, input) ← Leb.unsigned input
-    pure (.setIsa v, input)
+  else if opcode = 12 then mapRead .setIsa (Leb.unsigned input)
   else
     -- `opcode_lengths.skip(opcode - 1)?; opcode_lengths.read_u8()?`
     match h.stdLens.drop (opcode - 1) with
@@ -194,12 +190,14 @@ def parseStandard (h : Params) (opcode : Nat) (input : Bytes) : Out (Instr × By
     | n :: _ =>
       let numArgs := n.toNat
       if numArgs = 0 then .ok (.unknownStandard0 opcode, input)
-      else if numArgs = 1 then do
-        let (v, input) ← Leb.unsigned input
-        pure (.unknownStandard1 opcode v, input)
-      else do
-        let rest ← skipUlebs numArgs input
-        pure (.unknownStandardN opcode (input.take (input.length - rest.length)), rest)
+      else if numArgs = 1 then mapRead (.unknownStandard1 opcode) (Leb.unsigned input)
+      else
+        -- `args = input.clone(); for _ in 0..num_args { input.read_uleb128()? }; args.truncate(..)`
+        match skipUlebs numArgs input with
+        | .ok rest => .ok (.unknownStandardN opcode (input.take (input.length - rest.length)), rest)
+        | .err e => .err e
+        | .panic w => .panic w
+        | .diverge => .diverge
 
 /-- `LineInstruction::parse` -/
 def parseInstr (h : Params) (input : Bytes) : Out (Instr × Bytes) :=
@@ -207,11 +205,23 @@ def parseInstr (h : Params) (input : Bytes) : Out (Instr × Bytes) :=
   | [] => .err .rUnexpectedEof
   | opb :: input =>
     let opcode := opb.toNat
-    if opcode = 0 then do
-      let (length, input) ← Leb.unsigned input
-      let (ext, input) ← Ints.take length input
-      let i ← parseExtended h ext
-      pure (i, input)
+    if opcode = 0 then
+      -- `length = read_uleb128()?; instr_rest = input.split(length)?`
+      match Leb.unsigned input with
+      | .ok (length, input) =>
+        match Ints.take length input with
+        | .ok (ext, input) =>
+          match parseExtended h ext with
+          | .ok i => .ok (i, input)
+          | .err e => .err e
+          | .panic w => .panic w
+          | .diverge => .diverge
+        | .err e => .err e
+        | .panic w => .panic w
+        | .diverge => .diverge
+      | .err e => .err e
+      | .panic w => .panic w
+      | .diverge => .diverge
     else if opcode ≥ h.opcodeBase then .ok (.special opcode, input)
     else parseStandard h opcode input
 
